@@ -459,6 +459,35 @@ def run(ctx):
     ctx.check(okmax, 'C12.R5', '%s|maximum-size-source' % L, ssite, 'maximum = client value (component 1 of the engine result) when present, else the session default',
               'the maximum size compared is not the client-requested size / session default')
 
+    # the engine side of the same value: what process_request hands back as the client's maximum is taken from THIS request
+    from ..engmodel import ENGINE as _ENG
+    et_ = src.tree(_ENG)
+    ecls_ = get_class(et_, 'KmipEngine')
+    from ..inline import flat_methods as _fm
+    pr_ = _fm(ecls_)[0].get('process_request')
+    ctx.need(pr_ is not None, 'anchor vanished: KmipEngine.process_request')
+    pg_ = CFG(pr_)
+    prd_ = ReachingDefs(pg_)
+    n_ret_ = 0
+    for n_ in pg_.nodes:
+        if n_.kind == 'stmt' and isinstance(n_.stmt, ast.Return) and isinstance(n_.stmt.value, ast.Tuple) and len(n_.stmt.value.elts) >= 2:
+            n_ret_ += 1
+            e1 = n_.stmt.value.elts[1]
+            vals_ = [e1]
+            if isinstance(e1, ast.Name):
+                vals_ = [v for v in prd_.values(n_, e1.id, deep=True)]
+            bad_ = []
+            for v in vals_:
+                if isinstance(v, ast.AST):
+                    if any(is_self_attr(x) for x in ast.walk(v)):
+                        bad_.append(U(v)[:60])
+                elif v is not None and not (isinstance(v, tuple)):
+                    bad_.append(str(v)[:60])
+            ctx.check(not bad_, 'C12.R5', 'KmipEngine.process_request|maximum-size-of-this-request', '%s:%s KmipEngine.process_request' % (_ENG, n_.stmt.lineno),
+                      'the maximum response size handed to the session is a local set from this request\'s header (or None)',
+                      'the maximum response size handed to the session comes from engine state (%s): a limit asked for by one request stays in force for later requests - of any connection - that did not ask for one, and they are answered Response Too Large' % ', '.join(bad_))
+    ctx.need(n_ret_ >= 1, 'unrecognised construct: process_request returns no (response, maximum size, version) tuple')
+
     # ---------------- R6 decoder loops
     n_loops = 0
     n_skipped = 0
